@@ -69,14 +69,30 @@ MQDigit(r, y, lo, hi) ==
   ELSE LET mid == (lo + hi + 1) \div 2 IN
        IF MCmp(MMulSmall(y, mid), r) <= 0 THEN MQDigit(r, y, mid, hi) ELSE MQDigit(r, y, lo, mid - 1)
 
-\* schoolbook long division, most significant limb first: <<quotient, remainder>>  (y # 0)
+\* x div k and x mod k for a single-limb divisor 1 <= k < IB, most significant limb first: <<quotient, remainder (integer)>>
+RECURSIVE MDivSmallR(_, _, _, _, _)
+MDivSmallR(x, k, i, r, q) == IF i = 0 THEN <<MTrim(q), r>>
+                             ELSE LET c == r * IB + x[i] IN MDivSmallR(x, k, i - 1, c % k, <<c \div k>> \o q)
+
+\* schoolbook long division (Knuth 4.3.1 D): the divisor y is scaled so that its top limb is >= IB/2; the quotient
+\* limb estimated from the two top limbs of the running remainder is then at most 2 too large
 RECURSIVE MDivR(_, _, _, _, _)
 MDivR(x, y, i, q, r) ==
   IF i = 0 THEN <<MTrim(q), r>>
   ELSE LET r1 == MTrim(<<x[i]>> \o r)           \* r * IB + x[i]
-           d  == MQDigit(r1, y, 0, IB - 1)
-       IN MDivR(x, y, i - 1, <<d>> \o q, MSub(r1, MMulSmall(y, d)))
-MDivMod(x, y) == MDivR(x, y, Len(x), <<>>, <<>>)
+           n  == Len(y)
+           top == IF Len(r1) > n THEN r1[n + 1] * IB + r1[n] ELSE IF Len(r1) = n THEN r1[n] ELSE 0
+           est == top \div y[n]
+           hi == IF est > IB - 1 THEN IB - 1 ELSE est
+           d  == IF Len(r1) < n THEN 0 ELSE MQDigit(r1, y, IF hi >= 2 THEN hi - 2 ELSE 0, hi)
+       IN MDivR(x, y, i - 1, <<d>> \o q, IF d = 0 THEN r1 ELSE MSub(r1, MMulSmall(y, d)))
+\* <<quotient, remainder>>  (y # 0)
+MDivMod(x, y) ==
+  IF Len(y) = 1 THEN (LET qr == MDivSmallR(x, y[1], Len(x), 0, <<>>) IN <<qr[1], MFromNat(qr[2])>>)
+  ELSE IF MCmp(x, y) < 0 THEN << <<>>, x >>
+  ELSE LET sc == IB \div (y[Len(y)] + 1)
+           qr == MDivR(MMulSmall(x, sc), MMulSmall(y, sc), Len(MMulSmall(x, sc)), <<>>, <<>>)
+       IN <<qr[1], MDivSmallR(qr[2], sc, Len(qr[2]), 0, <<>>)[1]>>
 
 MIsOdd(x) == x # <<>> /\ x[1] % 2 = 1
 
